@@ -27,6 +27,36 @@ WRITE = "writer.write"
 SECTIONS = ("Version", "Well", "Curves", "Parameter")
 
 
+
+def _nested_funcs(fi):
+    """[(FuncInfo, return expressions)] of the nested defs / lambdas of fi"""
+    out = []
+    for nm, nf in fi.nested.items():
+        if isinstance(nf.node, ast.Lambda):
+            out.append((nf, [nf.node.body]))
+        else:
+            out.append((nf, [r_.value for r_ in walk_shallow(nf.node) if isinstance(r_, ast.Return) and r_.value is not None]))
+    return out
+
+
+def _resolve_local(nf, e):
+    """replace a plain local name by its single defining expression inside nf (padding = " " * ...)"""
+    if isinstance(e, ast.Name) and not isinstance(nf.node, ast.Lambda):
+        defs = [s_.value for s_ in walk_shallow(nf.node) if isinstance(s_, ast.Assign) and any(isinstance(t, ast.Name) and t.id == e.id for t in s_.targets)]
+        if len(defs) == 1:
+            return defs[0]
+    return e
+
+
+def _formatters(ff):
+    """nested functions whose result is `<template string> % (a, b, c)`"""
+    out = []
+    for nf, rets in _nested_funcs(ff):
+        for b in rets:
+            if isinstance(b, ast.BinOp) and isinstance(b.op, ast.Mod) and isinstance(b.left, ast.Constant) and isinstance(b.left.value, str):
+                out.append((nf, b))
+    return out
+
 def _callee_quals(r, fi, call):
     return {t.qual for t in r.callees(fi, call)[0]}
 
@@ -65,6 +95,12 @@ def rule_measure(ctx):
             for t in s.targets:
                 if isinstance(t, ast.Name):
                     fvars.add(t.id)
+    # private helpers of the writer module that format the items they are given
+    fmt_helpers = {}
+    for q, hf in p.functions.items():
+        if hf.module.name == "writer" and hf.parent is None and hf is not fw and not isinstance(hf.node, ast.Lambda):
+            if any(isinstance(c, ast.Call) and "writer.get_formatter_function" in _callee_quals(r, hf, c) for c in walk_shallow(hf.node)):
+                fmt_helpers[q] = hf
     for node in cfg.nodes:
         if node.ast is None or node.kind != "stmt":
             continue
@@ -72,6 +108,11 @@ def rule_measure(ctx):
             if isinstance(c, ast.Call) and isinstance(c.func, ast.Name) and c.func.id in fvars and c.args:
                 for pth in ea.paths_of(c.args[0], fw):
                     fmt.setdefault(pth[:-1] if pth and pth[-1] == ("elem", "*") else pth, []).append((node.id, c))
+            elif isinstance(c, ast.Call) and (_callee_quals(r, fw, c) & set(fmt_helpers)) and c.args:
+                for a in c.args:
+                    for pth in ea.paths_of(a, fw):
+                        if len(pth) >= 3 and pth[1] == ("attr", "sections"):
+                            fmt.setdefault(pth, []).append((node.id, c))
     if not measure or not fmt:
         raise AnalysisError("writer.write: cannot find the width measurements / formatter calls (measure=%d, fmt=%d)" % (len(measure), len(fmt)))
     n = 0
@@ -122,14 +163,15 @@ def rule_measure(ctx):
             ctx.ok("WR.MEASURE", site, fw, ms[0][1], "%s: alignment -> normalisation (%d store site(s)) -> measurement -> "
                    "formatting, and no later stage can be followed by an earlier one" % (name, len(ns)))
     # every normalised section is also measured afterwards (the measurement sees final values)
-    ctx.floor("WR.MEASURE", 3)
+    ctx.floor("WR.MEASURE", 2)
 
 
 def rule_order_key(ctx):
     p = ctx.p
     r = get_resolver(p)
     n = 0
-    for q in (WRITE, "writer.get_section_widths"):
+    quals = [q for q, f in sorted(p.functions.items()) if f.module.name == "writer" and f.parent is None and not isinstance(f.node, ast.Lambda)]
+    for q in quals:
         fi = p.func(q)
         cfg = build_cfg(p, fi)
         prov = Provenance(cfg)
@@ -162,22 +204,18 @@ def rule_order_key(ctx):
                               "is written: for a duplicated STRT/STOP/STEP/NULL ('NULL:2') in a 1.2 file the wrong order is "
                               "used and value and description are swapped on re-reading" % (
                                   unparse(c.args[0]), sorted(attrs | calls) or "other data"))
-    ctx.floor("WR.ORDER-KEY", 5)
+    ctx.floor("WR.ORDER-KEY", 2)
 
 
 def rule_orig_mnem(ctx):
     p = ctx.p
     ff = p.func("writer.get_formatter_function")
     n = 0
-    fmt_lambdas = []
-    for nm, nf in ff.nested.items():
-        if isinstance(nf.node, ast.Lambda) and isinstance(nf.node.body, ast.BinOp) and isinstance(nf.node.body.op, ast.Mod):
-            fmt_lambdas.append(nf)
-    if len(fmt_lambdas) < 2:
-        raise AnalysisError("cannot find the two line-formatting lambdas in writer.get_formatter_function")
-    for nf in fmt_lambdas:
+    fmts = _formatters(ff)
+    if len(fmts) < 2:
+        raise AnalysisError("cannot find the two line-formatting functions in writer.get_formatter_function")
+    for nf, body in fmts:
         n += 1
-        body = nf.node.body
         tup = body.right
         site = "%s#%s" % (ff.qual, nf.name)
         first = tup.elts[0] if isinstance(tup, ast.Tuple) and tup.elts else None
@@ -202,39 +240,39 @@ def rule_orig_mnem(ctx):
 def rule_template(ctx):
     p = ctx.p
     ff = p.func("writer.get_formatter_function")
-    problems = []
     n = 0
+    for nf, b in _formatters(ff):
+        n += 1
+        tpl = b.left.value
+        parts = tpl.split("%s")
+        site = "%s#%s:template" % (ff.qual, _order_of(nf, ff) or nf.name)
+        pr = []
+        if len(parts) != 4:
+            pr.append("template %r does not have three fields" % tpl)
+        else:
+            if parts[0] != "":
+                pr.append("text %r precedes the mnemonic" % parts[0])
+            if parts[1] != ".":
+                pr.append("mnemonic and unit are separated by %r; the reader needs '.' directly followed by the unit "
+                          "(a blank after the period makes the unit empty and moves it into the value)" % parts[1])
+            if ":" not in parts[2] or not parts[2].startswith(" "):
+                pr.append("value and description are separated by %r; the reader needs a ':' set off by a blank" % parts[2])
+            if parts[2].count(":") != 1:
+                pr.append("separator %r contains more than one ':'" % parts[2])
+        ctx.check(not pr, "WR.TEMPLATE", site, nf, b, "template %r: MNEM.UNIT<pad>RHS : TAIL" % tpl, "; ".join(pr))
+    if n < 2:
+        raise AnalysisError("cannot find the two line-formatting functions in writer.get_formatter_function")
+    # middle field builder: unit + blanks + right-hand item (lambda or def, padding possibly in a local)
     mid = None
-    for nm, nf in ff.nested.items():
-        if isinstance(nf.node, ast.Lambda):
-            b = nf.node.body
-            if isinstance(b, ast.BinOp) and isinstance(b.op, ast.Mod) and isinstance(b.left, ast.Constant) and isinstance(b.left.value, str):
-                n += 1
-                tpl = b.left.value
-                parts = tpl.split("%s")
-                site = "%s#%s:template" % (ff.qual, nm)
-                pr = []
-                if len(parts) != 4:
-                    pr.append("template %r does not have three fields" % tpl)
-                else:
-                    if parts[0] != "":
-                        pr.append("text %r precedes the mnemonic" % parts[0])
-                    if parts[1] != ".":
-                        pr.append("mnemonic and unit are separated by %r; the reader needs '.' directly followed by the unit "
-                                  "(a blank after the period makes the unit empty and moves it into the value)" % parts[1])
-                    if ":" not in parts[2] or not parts[2].startswith(" "):
-                        pr.append("value and description are separated by %r; the reader needs a ':' set off by a blank" % parts[2])
-                    if parts[2].count(":") != 1:
-                        pr.append("separator %r contains more than one ':'" % parts[2])
-                ctx.check(not pr, "WR.TEMPLATE", site, nf, b, "template %r: MNEM.UNIT<pad>RHS : TAIL" % tpl, "; ".join(pr))
-            elif isinstance(b, ast.BinOp) and isinstance(b.op, ast.Add):
-                mid = nf
-    # middle_func: unit first, padding blanks, right-hand item last
+    for nf, rets in _nested_funcs(ff):
+        for b in rets:
+            if isinstance(b, ast.BinOp) and isinstance(b.op, ast.Add) and len(nf.params()) == 2:
+                mid = (nf, b)
     if mid is None:
         ctx.bad("WR.TEMPLATE", ff.qual + "#middle", ff, ff.node, "cannot find the middle-field builder (unit + blanks + value)")
     else:
-        b = mid.node.body
-        params = mid.params()
+        nf, b = mid
+        params = nf.params()
         flat = []
 
         def flatten(e):
@@ -242,7 +280,7 @@ def rule_template(ctx):
                 flatten(e.left)
                 flatten(e.right)
             else:
-                flat.append(e)
+                flat.append(_resolve_local(nf, e) if not (isinstance(e, ast.Name) and e.id in params) else e)
         flatten(b)
         pr = []
         if not (isinstance(flat[0], ast.Name) and flat[0].id == params[0]) and not (
@@ -258,15 +296,27 @@ def rule_template(ctx):
             for c in ast.walk(e):
                 if isinstance(c, ast.Constant) and isinstance(c.value, str) and c.value not in (" ",):
                     pr.append("padding uses %r instead of blanks" % c.value)
-        ctx.check(not pr, "WR.TEMPLATE", ff.qual + "#middle", mid, b, "middle field = unit + blanks + right-hand item", "; ".join(pr))
-    # mnemonic_func pads on the right (ljust): the period follows the padded mnemonic
-    for nm, nf in ff.nested.items():
-        if isinstance(nf.node, ast.Lambda) and isinstance(nf.node.body, ast.Call) and isinstance(nf.node.body.func, ast.Attribute) \
-                and nf.node.body.func.attr in ("ljust", "rjust", "center"):
-            ctx.check(nf.node.body.func.attr == "ljust", "WR.TEMPLATE", ff.qual + "#mnemonic-pad", nf, nf.node.body,
-                      "mnemonic is left-justified (padding between the mnemonic and the period)",
-                      "mnemonic is padded with %s: leading blanks become part of the line start" % nf.node.body.func.attr)
+        ctx.check(not pr, "WR.TEMPLATE", ff.qual + "#middle", nf, b, "middle field = unit + blanks + right-hand item", "; ".join(pr))
+    # mnemonic pad: ljust
+    for nf, rets in _nested_funcs(ff):
+        for b in rets:
+            if isinstance(b, ast.Call) and isinstance(b.func, ast.Attribute) and b.func.attr in ("ljust", "rjust", "center"):
+                ctx.check(b.func.attr == "ljust", "WR.TEMPLATE", ff.qual + "#mnemonic-pad", nf, b,
+                          "mnemonic is left-justified (padding between the mnemonic and the period)",
+                          "mnemonic is padded with %s: leading blanks become part of the line start" % b.func.attr)
     ctx.floor("WR.TEMPLATE", 3)
+
+
+def _order_of(nf, ff):
+    """the order constant under whose `if order == C` branch the formatter nf is defined / returned"""
+    node = nf.node
+    cur = node
+    par = getattr(cur, "_parent", None)
+    while par is not None and par is not ff.node:
+        if isinstance(par, ast.If) and isinstance(par.test, ast.Compare) and isinstance(par.test.comparators[0], ast.Constant):
+            return par.test.comparators[0].value
+        par = getattr(par, "_parent", None)
+    return None
 
 
 def rule_copy_vers(ctx):
@@ -413,6 +463,16 @@ def _decode_shape(fi, table_expr_pred):
                         if isinstance(st, ast.Assign) and isinstance(st.targets[0], ast.Subscript) and isinstance(st.targets[0].slice, ast.Name) \
                                 and st.targets[0].slice.id == mv and isinstance(st.value, ast.Name) and st.value.id == o:
                             store = True
+        if isinstance(s, ast.DictComp) and len(s.generators) == 2:
+            g1, g2 = s.generators
+            if (isinstance(g1.iter, ast.Subscript) and isinstance(g1.iter.slice, ast.Slice) and isinstance(g1.iter.slice.lower, ast.Constant)
+                    and g1.iter.slice.lower.value == 1 and g1.iter.slice.upper is None and isinstance(g1.target, ast.Tuple) and len(g1.target.elts) == 2
+                    and not g1.ifs and not g2.ifs):
+                o, ms = g1.target.elts[0].id, g1.target.elts[1].id
+                if isinstance(g2.iter, ast.Name) and g2.iter.id == ms and isinstance(g2.target, ast.Name):
+                    pair_loop = True
+                    if isinstance(s.key, ast.Name) and s.key.id == g2.target.id and isinstance(s.value, ast.Name) and s.value.id == o:
+                        store = True
     return default_idx, pair_loop, store
 
 
@@ -467,10 +527,16 @@ def rule_ord_table(ctx):
     # both decoders use the same constant and the same convention
     rd = p.func("reader.SectionParser.__init__")
     wr = p.func("writer.get_section_order_function")
+    r = get_resolver(p)
     for fi2, role in ((rd, "reader"), (wr, "writer")):
         txt = ast.unparse(fi2.node)
         uses = "ORDER_DEFINITIONS" in txt
-        d, pl, st = _decode_shape(fi2, None)
+        # the decoding may live in a private helper the function calls
+        d, pl, st = None, False, False
+        for cand in [fi2] + [f for q, f in sorted(r.closure([fi2]).items()) if f is not fi2 and f.module.name in ("reader", "writer", "defaults")]:
+            d2, pl2, st2 = _decode_shape(cand, None)
+            d = d if d is not None else d2
+            pl, st = pl or pl2, st or st2
         pr = []
         if not uses:
             pr.append("does not decode defaults.ORDER_DEFINITIONS")
@@ -504,19 +570,15 @@ def rule_ord_bijection(ctx):
     ff = p.func("writer.get_formatter_function")
     # writer: order constant -> (middle field, tail field)
     wmap = {}
-    for s in walk_shallow(ff.node):
-        if isinstance(s, ast.If) or True:
-            pass
-    for s in ast.walk(ff.node):
-        if isinstance(s, ast.If) and isinstance(s.test, ast.Compare) and isinstance(s.test.comparators[0], ast.Constant):
-            const = s.test.comparators[0].value
-            lam = [x for st in s.body for x in ast.walk(st) if isinstance(x, ast.Lambda)]
-            if lam and isinstance(lam[0].body, ast.BinOp) and isinstance(lam[0].body.right, ast.Tuple) and len(lam[0].body.right.elts) == 3:
-                el = lam[0].body.right.elts
-                mids = [a.attr for a in ast.walk(el[1]) if isinstance(a, ast.Attribute) and a.attr in ("value", "descr")]
-                tails = [a.attr for a in ast.walk(el[2]) if isinstance(a, ast.Attribute) and a.attr in ("value", "descr")]
-                units = [a.attr for a in ast.walk(el[1]) if isinstance(a, ast.Attribute) and a.attr == "unit"]
-                wmap[const] = (mids[0] if len(mids) == 1 else None, tails[0] if len(tails) == 1 else None, bool(units))
+    for nf, body in _formatters(ff):
+        const = _order_of(nf, ff)
+        if const is None or not (isinstance(body.right, ast.Tuple) and len(body.right.elts) == 3):
+            continue
+        el = body.right.elts
+        mids = [a.attr for a in ast.walk(el[1]) if isinstance(a, ast.Attribute) and a.attr in ("value", "descr")]
+        tails = [a.attr for a in ast.walk(el[2]) if isinstance(a, ast.Attribute) and a.attr in ("value", "descr")]
+        units = [a.attr for a in ast.walk(el[1]) if isinstance(a, ast.Attribute) and a.attr == "unit"]
+        wmap[const] = (mids[0] if len(mids) == 1 else None, tails[0] if len(tails) == 1 else None, bool(units))
     fm = p.func("reader.SectionParser.metadata")
     kw = fm.node.args.kwarg.arg if fm.node.args.kwarg else "keys"
     rmap = {}
@@ -574,11 +636,13 @@ def rule_key_norm(ctx):
             rnorm = sorted({x.func.attr for x in ast.walk(c.slice) if isinstance(x, ast.Call) and isinstance(x.func, ast.Attribute)})
     fo = p.func("writer.get_section_order_function")
     wnorm = None
-    for nm, nf in fo.nested.items():
-        if isinstance(nf.node, ast.Lambda):
-            for c in ast.walk(nf.node.body):
+    for nf, rets in _nested_funcs(fo):
+        for body in rets:
+            for c in ast.walk(body):
                 if isinstance(c, ast.Call) and isinstance(c.func, ast.Attribute) and c.func.attr == "get" and c.args:
                     wnorm = sorted({x.func.attr for x in ast.walk(c.args[0]) if isinstance(x, ast.Call) and isinstance(x.func, ast.Attribute)})
+                if isinstance(c, ast.Subscript) and isinstance(c.ctx, ast.Load) and "orders" in ast.unparse(c.value):
+                    wnorm = sorted({x.func.attr for x in ast.walk(c.slice) if isinstance(x, ast.Call) and isinstance(x.func, ast.Attribute)})
     if rnorm is None or wnorm is None:
         raise AnalysisError("cannot find the order lookups (reader %s, writer %s)" % (rnorm, wnorm))
     # plus normalisation applied at the writer's call sites (order_func(x.upper()))
